@@ -8,4 +8,48 @@ CHECKS = {
         note="Trusted: NumPy float64 arithmetic; rounding slack 8*N*2^-24 buckets. The sub-normal-bucket flush (XLA-CPU FTZ) is a recorded known finding.",
     ),
 }
+CHECKS.update({
+    "C01": dict(
+        level="exploration",
+        technique="runtime monitor: float64 residual/padding/symmetry/Rayleigh oracle on every observed call of the real inverse-root routines (direct jitted calls on generated PSD matrices)",
+        design_ref="DESIGN.md section 4 C01",
+        text="Every call of matrix_inverse_pth_root (Newton, eigh, LOBPCG-deflated) made by the workload is checked in float64: finite, exactly zero padding, symmetric to 8*n*u*kappa, and whenever the reported error is below 0.1 the true residual max|X^p(A+dI)-I| is at most the reported error plus 64*n*p*u*kappa, with d reconstructed from the documented ridge rule (replica of the documented power iteration cross-checked with the reported estimate); reported lambda_max never above the true one. Inputs are sampled inside kappa<=1e8 (1.6k calls quick, ~25k thorough), special families included. Sampling, not proof.",
+        note="Trusted: NumPy/LAPACK float64 eigvalsh and matrix_power. Float32 inputs only get the structural clauses. Dishonesty smaller than the slack is invisible.",
+    ),
+    "C06": dict(
+        level="exploration",
+        technique="runtime contracts (icontract postconditions on the real helpers) + round-trip drivers on arange tensors, shape space enumerated exhaustively up to a bound",
+        design_ref="DESIGN.md section 4 C06",
+        text="icontract postconditions on merge_small_dims, BlockPartitioner.partition/merge_partitions, Preconditioner.shapes_for_preconditioners/updated_statistics_from_grad/preconditioned_grad, Tearfree _blockify/_deblockify and reshaper._derive_shapes are evaluated on every call while a driver walks every shape up to the bound (rank 0..5, dims 1..3/4) x block sizes x merge limits x preconditioner types on index-valued float64 tensors: blocks equal the predicted contiguous slices, inverse after forward is the identity bitwise, announced preconditioner list equals the produced one, Gram statistics exact, identity preconditioning is the identity and distinct per-slot scalings land on the right block/axis. Exhaustive inside the bound (evidence exhaustive=true), nothing outside it.",
+        note="Trusted: NumPy slicing as the model of 'contiguous sub-tensor'. Block size 0 (blocking disabled) is outside the enumerated space.",
+    ),
+    "C10": dict(
+        level="exploration",
+        technique="runtime monitor: dense-matrix oracle for pack/unpack (exhaustive over (d,r)), packed application and packed root (float64 eigh reference with spectral-gap guard)",
+        design_ref="DESIGN.md section 4 C10",
+        text="pack/unpack are checked to be mutually inverse bitwise for every admissible (d,r), |r|+2<d<=12 (20 thorough), both signs, x64 on and off; Preconditioner.preconditioned_grad with packed preconditioners is compared with tensordot by the dense c(I-VV')+V diag(e)V' on every axis of rank 1..3 gradients (has_zeros => identity); _low_rank_root is compared as a dense matrix with the exact float64 truncated root (top or bottom |r| directions, mean of the rest over unpadded dims) with padding, relative/absolute ridge, p 1..8.",
+        note="Trusted: NumPy float64 eigh. Cases without a 1e-3 relative spectral gap at the cut are skipped (counted).",
+    ),
+    "C12": dict(
+        level="exploration",
+        technique="runtime monitor: exact float64 per-entry second-moment accumulator run in lock-step with the real sm3 transformation",
+        design_ref="DESIGN.md section 4 C12",
+        text="After every public update the accumulators in state are compared with an exact float64 decayed sum of squared (float32) gradients: min over a coordinate's accumulators >= nu, monotone for beta2=1, recovered pre-momentum step <= AdaGrad/RMSProp step, equality for rank-1. 640 (config, history) cases quick over ranks 1-4 incl. unit dims, 7 history families, beta1/beta2/weight decay/normalisation.",
+        note="Relative slack 1e-5 (float32 state). The exact SM3-II recurrence is deliberately not asserted (only the cover property the statement makes).",
+    ),
+    "C16": dict(
+        level="exploration",
+        technique="runtime monitor: closed-form and dense-matrix float64 oracles on every state returned by the OCO init/update pair",
+        design_ref="DESIGN.md section 4 C16",
+        text="OGD/ADA iterates vs closed forms; for the four sketched algorithms after every update: last sketch row zero, S<=C<=S+(sum rho^2)I on the documented sketched inputs with rho recomputed independently, alpha recurrence per algorithm (S_ADA: delta + sum rho^2), iterate step vs dense (alpha I + sketch)^p g, and S_ADA == exact full-matrix AdaGrad on histories of rank < sketch size with delta>0. 640 (config, history) cases quick, T<=20.",
+        note="x64 on. ADA_FD is driven with delta>0 only (0/0 otherwise); dense cross-check skipped when cond>1e8.",
+    ),
+    "C17": dict(
+        level="exploration",
+        technique="runtime monitor: budget/range postcondition on every create_redist_dict result over generated synthetic checkpoint states",
+        design_ref="DESIGN.md section 4 C17",
+        text="create_redist_dict is called on synthetic states in the checkpoint layout (1-8 layers, 1-3 axes, shared/unshared dims, 7 score families incl. float32-cancelling and all-zero, 5 scoring rules, running average) and every result is checked: integer rank in [1,dim] per axis, per equal-dim group sum <= size*base; any exception is a violation. 960 instances quick.",
+        note="Three genuine defects found by this monitor were repaired in /repo (fix: commits 6341441, e4a979f, 36b531d).",
+    ),
+})
 NOT_APPLICABLE = {}
